@@ -241,6 +241,36 @@ Theorem C13_resolve_main_inconclusive : forall P lb sts p,
 Proof. exact resolve_main_inconclusive. Qed.
 Print Assumptions C13_resolve_main_inconclusive.
 
+(* ---------------------------------------------------------------- MinFlowDecomp with use_subgraph_scanning_lowerbound *)
+(* a window (nested MinFlowDecomp) that met an inconclusive status in its own main loop contributes no bound *)
+Theorem C13_scan_inconclusive_window_no_bound : forall sk ex W ws sts b n p,
+  inconclusive_at sts p -> aux (fd_solve sk ex W sts) <= p < used (fd_solve sk ex W sts) ->
+  scan sk ex (W :: ws) sts b n =
+  scan sk ex ws (skipn (used (fd_solve sk ex W sts)) sts) b (n + used (fd_solve sk ex W sts)).
+Proof. exact scan_inconclusive_window_no_bound. Qed.
+Print Assumptions C13_scan_inconclusive_window_no_bound.
+
+Theorem C13_mfd_scan_main_inconclusive : forall sk ex P ws sts p,
+  inconclusive_at sts p ->
+  aux (mfd_scan_solve sk ex P ws sts) <= p < used (mfd_scan_solve sk ex P ws sts) ->
+  so_res (mfd_scan_solve sk ex P ws sts) = NotSolved.
+Proof. exact mfd_scan_main_inconclusive. Qed.
+Print Assumptions C13_mfd_scan_main_inconclusive.
+
+Theorem C13_mfd_scan_sound : forall ex P ws sts k,
+  so_res (mfd_scan_solve false ex P ws sts) = Solved k ->
+  let o := mfd_scan_solve false ex P ws sts in
+  (exists lb1 b, lbk o = Nat.max lb1 b /\
+     (lb1 = lb0 P \/ (use_mgs P = true /\ exists kg m, lb1 = Nat.max (lb0 P) kg /\ lb0 P <= kg /\
+                        map status_of (firstn m sts) = repeat Infeasible (kg - lb0 P) ++ [Optimal])) /\
+     (b = 0 \/ exists W sts', In W ws /\ so_res (fd_solve false ex W sts') = Solved b)) /\
+  lbk o <= k < upper (upper_excl P) (nedges P) /\ aux o <= used o /\
+  exists tail,
+    map status_of (firstn (used o - aux o) (skipn (aux o) sts)) = repeat Infeasible (k - lbk o) ++ tail /\
+    (tail = [Optimal] \/ tail = []).
+Proof. exact mfd_scan_sound. Qed.
+Print Assumptions C13_mfd_scan_sound.
+
 (* ---------------------------------------------------------------- NumPathsOptimization *)
 Theorem C13_npo_sound : forall P sts k,
   so_res (npo_solve P sts) = Solved k ->
@@ -291,6 +321,16 @@ Example C13_resolve_nonvacuous :
   mfd_solve false false P [i_; o_; t_] = mkout NotSolved 3 2 2 /\
   fd_resolve P (lbk (mfd_solve false false P [i_; o_; t_])) None [o_] = mkout (Solved 2) 1 0 2.
 Proof. vm_compute. split; reflexivity. Qed.
+
+(* scanning: the window (lb 2) finds k=2 infeasible, k=3 optimal -> main loop starts at 3; with a time limit at
+   the window's k=3 the window gives no bound and the main loop starts at 2 again *)
+Example C13_scan_nonvacuous :
+  let P := mkfd 2 false 23 false 0 false 0 never never in
+  let W := mkfd 2 false 20 false 0 false 0 never never in
+  mfd_scan_solve false false P [W] [i_; o_; o_] = mkout (Solved 3) 3 2 3 /\
+  mfd_scan_solve false false P [W] [i_; t_; i_; o_] = mkout (Solved 3) 4 2 2 /\
+  mfd_scan_solve false false P [W] [i_; o_; t_] = mkout NotSolved 3 2 3.
+Proof. vm_compute. repeat split; reflexivity. Qed.
 
 (* NumPathsOptimization: skips unsolved k (by design) but returns only a model that was solved *)
 Example C13_npo_nonvacuous :
